@@ -7,6 +7,7 @@ import (
 	"os"
 
 	"verifharness/internal/c06"
+	"verifharness/internal/c11"
 	"verifharness/internal/common"
 )
 
@@ -14,6 +15,7 @@ type sub func(tier string, seed int64, outDir string) *common.Meta
 
 var subs = map[string]sub{
 	"c06": c06.Run,
+	"c11": c11.Run,
 }
 
 var gens = map[string]func(outDir string) error{
